@@ -40,24 +40,31 @@ func (m *lock) Unlock(l uint8) {
 // LockSafe locks the world and get the Lock bit for later unlocking.
 // This is concurrency-safe.
 func (m *lock) LockSafe() uint8 {
+	verifYield(verifBeforeLock, &m.mu)
 	m.mu.Lock()
 	lock := m.bitPool.Get()
+	verifYield(verifInLock, nil)
 	m.locks.Set(lock)
 	m.mu.Unlock()
+	verifYield(verifAfterUnlock, nil)
 	return lock
 }
 
 // UnlockSafe unlocks the given lock bit.
 // This is concurrency-safe.
 func (m *lock) UnlockSafe(l uint8) {
+	verifYield(verifBeforeLock, &m.mu)
 	m.mu.Lock()
 	if !m.locks.Get(l) {
 		m.mu.Unlock()
+		verifYield(verifAfterUnlock, nil)
 		panic("unbalanced unlock. Did you close a query that was already iterated?")
 	}
 	m.locks.Clear(l)
+	verifYield(verifInLock, nil)
 	m.bitPool.Recycle(l)
 	m.mu.Unlock()
+	verifYield(verifAfterUnlock, nil)
 }
 
 // IsLocked returns whether the world is locked by any queries.
